@@ -934,13 +934,13 @@ public:
       {
          const int sz = ps->size();
 
-         if(ps->mem() != &this->SVSetBaseArray::operator[](used))
+         if(ps->mem() != SVSetBaseArray::get_ptr() + used)
          {
             // cannot use memcpy, because the memory might overlap
             for(j = 0; j < sz; ++j)
                this->SVSetBaseArray::operator[](used + j) = ps->mem()[j];
 
-            ps->setMem(sz, &this->SVSetBaseArray::operator[](used));
+            ps->setMem(sz, SVSetBaseArray::get_ptr() + used);
             ps->set_size(sz);
          }
          else
